@@ -276,6 +276,22 @@ func (e *Exec) checkObl(c *sym.Term, id string) {
 	switch r {
 	case sym.Sat:
 		e.violation(key, "check", "assertion can fail", m)
+		// two more witnesses with different input values: under an uninterpreted-function abstraction a single witness
+		// may happen to be one of the few inputs on which the real kernel agrees (it would then fail to replay)
+		var blocks []*sym.Term
+		for k := 0; k < 2 && m != nil; k++ {
+			d := e.differsFrom(m)
+			if d == nil {
+				break
+			}
+			blocks = append(blocks, d)
+			r2, m2 := e.check(append([]*sym.Term{e.tb.Not(c)}, blocks...)...)
+			if r2 != sym.Sat || m2 == nil {
+				break
+			}
+			e.violation(key, "check", "assertion can fail", m2)
+			m = m2
+		}
 	case sym.Unknown:
 		o.Unknown++
 		e.rep.noteInconclusive(key, "solver unknown on obligation")
@@ -1001,4 +1017,32 @@ func (e *Exec) noteBlock(b *ssa.BasicBlock) {
 func (e *Exec) runBody(fn *ssa.Function, args []Value) Value {
 	e.skipIntrinsic = fn
 	return e.callFunction(fn, args, nil)
+}
+
+// differsFrom: "some symbolic input byte / word has a value other than in m, and (for bytes) is not zero either".
+func (e *Exec) differsFrom(m *sym.Model) *sym.Term {
+	var alts []*sym.Term
+	n := 0
+	for _, in := range e.inputs {
+		if _, fixed := e.cfg.Concrete[in.Name]; fixed {
+			continue
+		}
+		switch in.Kind {
+		case "bytes", "string":
+			for i := 0; i < in.N && n < 64; i++ {
+				name := fmt.Sprintf("%s[%d]", in.Name, i)
+				v := e.tb.Var(name, 8)
+				old := big.NewInt(0)
+				if x, ok := m.Vars[name]; ok {
+					old = x
+				}
+				alts = append(alts, e.tb.BAnd(e.tb.Not(e.tb.Eq(v, e.tb.ConstBig(8, old))), e.tb.Not(e.tb.Eq(v, e.tb.Const(8, 0)))))
+				n++
+			}
+		}
+	}
+	if len(alts) == 0 {
+		return nil
+	}
+	return e.tb.BOr(alts...)
 }
